@@ -405,3 +405,21 @@ def path_count_range(b, weight, start=0, targets=None):
 def reach_feasible(b, start, avoid=(), known=None):
     """See Body.reach_feasible."""
     return b.reach_feasible(start, avoid, known)
+
+
+def borrow_rule(R, func, new_rid, text, only_rules=None):
+    """Run a rule of another property (func(sub_report)) and account its obligations under `new_rid` of this property:
+    a clause that one property shares with another is decided by the same analysis, reported under this property's id."""
+    from .report import Report
+    sub = Report(R.prop, R.tier)
+    func(sub)
+    R.rule(new_rid, text)
+    for o in sub.obligations:
+        if only_rules is not None and o["rule"] not in only_rules:
+            continue
+        if o["ok"]:
+            R.ok(new_rid, o["key"], o["site"], o["detail"])
+        else:
+            R.bad(new_rid, o["key"], o["site"], "[%s] %s" % (o["rule"], o["detail"]))
+    for a in sub.assumptions:
+        R.assume(a)
